@@ -380,6 +380,16 @@ func c10RunOne(c *ev.Ctx, forcedRef string, directed func(si int, dsPaths []stri
 			c.Violation("reopen-refused:"+base+":"+sTag, wit(res))
 			return
 		}
+		// one session in eight (random histories only) shares the file with a second read-write
+		// handle that is opened first, modifies nothing and is closed after this session's
+		// Close: a session that makes no modification changes nothing, whenever it ends
+		idle := false
+		if directed == nil && r.Chance(1, 8) {
+			if ri := e.Step(-1, &hx.Op{K: "open_idle"}); ri.OK() {
+				idle = true
+				logh(fmt.Sprintf("S%d open_idle", si))
+			}
+		}
 		nops := r.Weighted([]int{2, 2, 3, 3, 2, 1, 1, 1, 1, 1, 1}) // 0..10
 		if directed != nil {
 			nops = len(plan)
@@ -537,6 +547,17 @@ func c10RunOne(c *ev.Ctx, forcedRef string, directed func(si int, dsPaths []stri
 		}
 		rs := e.Step(-1, &hx.Op{K: "close"})
 		logh(fmt.Sprintf("S%d close[%s]", si, rs.Err+rs.Panic))
+		if idle {
+			// the handle that modified nothing closes last: its Close must not undo what the
+			// other session wrote
+			ri := e.Step(-1, &hx.Op{K: "close_idle"})
+			logh(fmt.Sprintf("S%d close_idle[%s]", si, ri.Err+ri.Panic))
+			if ri.Panic != "" {
+				c.Violation("panic:close@"+ri.Panic, wit(ri))
+				return
+			}
+			kindsSeen["idle-second-writer-handle"] = true
+		}
 		if rs.Panic != "" {
 			c.Violation("panic:close@"+rs.Panic, wit(rs))
 			return
